@@ -116,6 +116,26 @@ EXTRA = {
  "C19": "Also: 18 binding constructs between two uses of an object, std objects reached from two threads, a function called by the host with itself, prefix tuples and far slice bounds among the provenance paths, operands typed by different overlapping unions.",
  "C20": "Also: decimal literals with leading zeros, literals nested in tuples and arrays (program and value literal), texts holding MIN_INT used as programs. Round 12: values of 100-3000 leaves, strings up to 60 000 scalars.",
 }
+# session 4 (round 13 and the work around it), appended after EXTRA
+EXTRA13 = {
+ "C03": "Round 13: cyclic imports (self, 2- and 3-cycles, several spellings of the path, next to diamonds) in a child process whose death is the verdict; files that use names of their importer under importers that declare them differently or not at all.",
+ "C04": "Round 13: 480 constant-exit loop twins (a jump inside a match arm / if-set / if / block of a loop whose exit is decided by a constant, inside another loop).",
+ "C05": "Round 13: histories of programs that fail many calls deep (every run-time error, inside helpers, loops, cell updates, modules) interleaved with programs that succeed along the same paths, 12 rounds per thread.",
+ "C06": "Round 13: 52 identifiers that begin with a word of the language (or are underscores) in 15 syntactic forms with documented values, and in the generator's name pools.",
+ "C09": "Round 13: the slice indexed and sliced again inside the same expression; bounds computed by slicing and measuring another sequence.",
+ "C10": "Round 13: type values with a history (asked every public question, then widened with | and |=, compared with the union built in one go up to equivalence); products of sums against sums of products over every pair of six component types; partial-overlap compound types in the membership forms.",
+ "C11": "Round 13: identifiers that begin with a type name or keyword as predicate, mapper, source and reducer of the iterator operators.",
+ "C12": "Round 13: 344 jump-round programs (8 loop shapes x 1-4 rounds x every set of rounds in which continue / break is taken); 1 805 run-time type tests over partly overlapping compound types.",
+ "C14": "Round 13: split readings forbidden (`**` / `**=` in front of a cell never has the value of the product).",
+ "C15": "Round 13: unions printed, then widened with | or |=, then printed again.",
+ "C16": "Round 13: cells that contain themselves rendered while others assign to them (deadlock watch), expressions that read one cell several times racing with assignments, executions that stay ~100 calls deep at the same time.",
+ "C17": "Round 13: one generated session in six and every enumerated session also through the REPL executable (src/main.rs), answer by answer against the embedding route; the binder-value sessions again with `_` as the name, destructuring from constant, computed and bound tuples.",
+ "C18": "Round 13: the print functions in child processes whose stdout refuses writes (full device, pipe without a reader, read-only descriptor).",
+ "C19": "Round 13: the candidate among four to six arms led by scalar literals, the same match called repeatedly.",
+ "C20": "Round 13: values generated to depth 9, towers to depth 16 over every kind of leaf; a string spelled like the rendering of its neighbour; a probe keeps the recorded finding about typed empty arrays visible.",
+}
+for _k, _v in EXTRA13.items():
+    EXTRA[_k] = (EXTRA.get(_k, "") + " " + _v).strip()
 PENDING = {}
 props = [json.loads(l) for l in open(os.path.join(ROOT, "properties.jsonl"))]
 checks, na = [], []
